@@ -3,8 +3,9 @@
 # same monitor; binary operators group according to the grammar's precedence.
 import json
 from fractions import Fraction
-from harness import fml, text
-from harness.common import parse_fields
+import os
+from harness import fml, text, c15_min
+from harness.common import parse_fields, Model, DRIVER
 from harness.runner import Check, need_vars, expect_vals
 
 
@@ -19,11 +20,18 @@ desugar = fml.desugar
 class C15(Check):
     PID = 'C15'
     SHRINK = False
+
+    def __init__(self):
+        self.min_stats = {k: 0 for k in ('cases', 'with_extra_pairs', 'stl_equal', 'stl_ambiguity_error', 'ltl_equal', 'ltl_ambiguity_error', 'one_pair_removed',
+                                         'removed_equal_to_model', 'removed_both_reject', 'removed_ambiguity_error')}
     RULE = ('seeded random formulas (incl. unless / unless[a,b]) rendered in >= 8 spellings each: keyword aliases, "," / ":" separators, minimal, full and '
             'redundant parenthesisation, random white space and comments, omitted final ";" or assertion head, and the LTL front end for untimed formulas; '
             'every spelling must parse (model and implementation) to the AST of the formula (grouping by the precedence table read from StlParser.py), and '
             'all spellings must evaluate to the same offline signal, equal to rho of the desugared formula; a precedence sweep over ordered pairs of binary operators (logical/temporal and arithmetic, grouped left and right); non-trivial = >= 2 binary/prefix operators; '
-            'distinct by (formula, spellings)')
+            'distinct by (formula, spellings); stream "min" (ParserMin.v): seeded random untyped ASTs of the parser model (18 binary / 10 prefix operators anywhere, functions, intervals; '
+            'a third with extra pairs at random nodes) rendered by the model with the needed parentheses only (driver command rmin); the text must parse (model; rtamt STL and, '
+            'interval-free, LTL class) to the AST it was rendered from; every text with ONE needed pair removed must not parse to that AST in the model, and what rtamt '
+            'parses it to must be what the model parses it to; "Ambiguity ERROR" rejections are counted')
 
     def gen_cases(self, rng, tier):
         text.load_levels()
@@ -76,21 +84,147 @@ class C15(Check):
                 r = text.Renderer(rng, style='min')
                 variants.append({'text': r.text(f), 'fe': 'ltl', 'style': 'min'})
             cases.append({'f': f, 'n': n, 'nv': nv, 'cols': fml.gen_trace(rng, nv, n), 'times': list(range(n)), 'variants': variants})
+        return cases + self.gen_min(rng, 300 if tier == 'quick' else 5000)
+
+    # ---- stream "min": the model renders, rtamt and the model parse ----
+    def gen_min(self, rng, n):
+        if not os.path.exists(DRIVER):
+            return []
+        raw = []
+        for i in range(n):
+            sx = c15_min.gen(rng, rng.choice([2, 3, 3, 4, 4, 5]))
+            ex = []
+            if i % 3 == 2:
+                ps = c15_min.paths_of(sx)
+                ex = [rng.choice(ps) for _ in range(rng.randint(1, 3))]
+            raw.append((sx, ex))
+        outs = Model().batch([self.rmin_line(sx, ex) for (sx, ex) in raw])
+        cases = []
+        for (sx, ex), o in zip(raw, outs):
+            f = self.rmin_fields(o)
+            if 'TEXT' not in f:
+                continue
+            cases.append({'stream': 'min', 'sx': sx, 'ex': ex, 'text': c15_min.unhex(f['TEXT']),
+                          'drops': [c15_min.unhex(d) for d in f.get('DROPS', '').split()]})
         return cases
+
+    @staticmethod
+    def rmin_line(sx, ex):
+        return '(rmin (%s) %s)' % (' '.join('(' + ' '.join(map(str, p)) + ')' for p in ex), sx)
+
+    @staticmethod
+    def rmin_fields(line):
+        return dict((p.split(' ', 1) + [''])[:2] for p in line.split(' | '))
+
+    def min_model_lines(self, c):
+        lines = [self.rmin_line(c['sx'], c['ex'])]
+        if '[' not in c['text']:
+            lines.append('(parse ltl s () %s)' % hexs(c['text'] + ';'))
+        return lines + ['(parse stl s () %s)' % hexs(d + ';') for d in c['drops']]
+
+    def min_impl_cases(self, c):
+        mk = lambda mon, t: {'monitor': mon, 'vars': list(c15_min.IDS), 'spec': t + ';', 'calls': [['ast']]}
+        out = [mk('discrete-offline', c['text'])]
+        if '[' not in c['text']:
+            out.append(mk('ltl-discrete', c['text']))
+        return out + [mk('discrete-offline', d) for d in c['drops']]
+
+    def impl_ast(self, i):
+        """('ambig' | 'reject' | 'ok', AST or message) of an implementation result with the single call ast"""
+        if i['setup']['status'] == 'rtamt' and 'Ambiguity ERROR' in i['setup'].get('msg', ''):
+            return 'ambig', None
+        if i['setup']['status'] != 'ok':
+            return 'reject', i['setup']
+        a = i['calls'][0]
+        if a['status'] != 'ok':
+            return 'reject', a
+        return 'ok', text.parse_dump(a['value'][-1])
+
+    def min_judge(self, c, mlines, ires):
+        st = self.min_stats
+        f = self.rmin_fields(mlines[0])
+        det = {'stream': 'min', 'ast': c['sx'], 'extra_pairs': c['ex'], 'text': c['text']}
+        if 'TEXT' not in f or c15_min.unhex(f['TEXT']) != c['text'] or [c15_min.unhex(d) for d in f.get('DROPS', '').split()] != c['drops']:
+            return 'model-vs-spec', dict(det, model=mlines[0][:300], note='the stored rendering is not what the model renders now')
+        if f.get('WF') != '1' or f.get('AST') in (None, 'NONE'):
+            return 'model-vs-spec', dict(det, model=mlines[0][:300], note='generator: the AST is not well formed')
+        want = text.parse_dump(f['AST'])
+        det['expected_ast'] = f['AST']
+        if not f['MODEL'].startswith('OK ') or text.parse_dump(f['MODEL'][3:]) != want:
+            return 'model-vs-spec', dict(det, model=f['MODEL'][:300], note='the model does not parse its own rendering back to the AST (C15_roundtrip_min / C15_roundtrip_gen)')
+        st['cases'] += 1
+        st['with_extra_pairs'] += bool(c['ex'])
+        k = 1
+        fes = [('stl', ires[0], None)]
+        if '[' not in c['text']:
+            fes.append(('ltl', ires[1], mlines[1]))
+            k = 2
+        for fe, i, ml in fes:
+            if ml is not None and not (ml.startswith('OK ') and text.parse_dump(ml[3:]) == want):
+                return 'model-vs-spec', dict(det, front_end=fe, model=ml[:300], note='the LTL grammar of the model parses the rendering differently')
+            kind, v = self.impl_ast(i)
+            if kind == 'ambig':
+                st[fe + '_ambiguity_error'] += 1
+            elif kind == 'reject':
+                return 'violation', dict(det, front_end=fe, expected='parses', observed=v)
+            elif v != want:
+                return 'violation', dict(det, front_end=fe, expected='the AST the text was rendered from', observed=i['calls'][0]['value'][-1])
+            else:
+                st[fe + '_equal'] += 1
+        for d, ml, i in zip(c['drops'], mlines[k:], ires[k:]):
+            st['one_pair_removed'] += 1
+            mast = text.parse_dump(ml[3:]) if ml.startswith('OK ') else None
+            dd = dict(det, one_needed_pair_removed=d)
+            if mast == want:
+                return 'model-vs-spec', dict(dd, note='the pair was not needed: the model parses the text without it to the same AST')
+            kind, v = self.impl_ast(i)
+            if kind == 'ambig':
+                st['removed_ambiguity_error'] += 1
+            elif kind == 'reject':
+                if mast is not None:
+                    return 'violation', dict(dd, expected={'parses to (model)': ml[:300]}, observed=v)
+                st['removed_both_reject'] += 1
+            elif v != mast:
+                return 'violation', dict(dd, expected={'the parse of the model': ml[:300]}, observed=i['calls'][0]['value'][-1])
+            else:
+                st['removed_equal_to_model'] += 1
+        return 'ok', None
+
+    def min_ops(self, c):
+        t = c15_min.tree_of(c['sx'])
+        out = set()
+
+        def walk(n):
+            if n[0] in ('un', 'bin', 'f1', 'f2'):
+                out.add('ast:' + n[1] + ('_t' if n[0] in ('un', 'bin') and n[2] != '-' else ''))
+                for x in n[2:]:
+                    if isinstance(x, list) and x and x[0] in ('id', 'lit', 'un', 'bin', 'f1', 'f2'):
+                        walk(x)
+        walk(t)
+        return sorted(out)
+
+    def extra_evidence(self):
+        return {'stream_min': dict(self.min_stats)}
 
     def load_case(self, c):
         from harness import shrink
         c = dict(c)
+        if c.get('stream') == 'min':
+            return c
         c['f'] = shrink.detuple(c['f'])
         return c
 
     def model_lines(self, c):
+        if c.get('stream') == 'min':
+            return self.min_model_lines(c)
         lines = ['(parse %s s () %s)' % (v['fe'], hexs(v['text'])) for v in c['variants']]
         d = desugar(c['f'])
         lines.append('(off std %s %d %s)' % (fml.to_sx(d), c['n'], fml.trace_sx(c['cols'])))
         return lines
 
     def impl_cases(self, c):
+        if c.get('stream') == 'min':
+            return self.min_impl_cases(c)
         data = {'time': c['times']}
         for i in range(c['nv']):
             data[fml.VARS[i]] = list(c['cols'][i])
@@ -101,6 +235,8 @@ class C15(Check):
         return out
 
     def judge(self, c, mlines, ires):
+        if c.get('stream') == 'min':
+            return self.min_judge(c, mlines, ires)
         exp = text.expected(c['f'])
         off = parse_fields(mlines[-1])
         if 'ERROR' in off:
@@ -139,18 +275,28 @@ class C15(Check):
         return 'ok', None
 
     def nontrivial(self, c):
+        if c.get('stream') == 'min':
+            return len(c['text'].split()) >= 4
         return fml.size(c['f']) >= 4
 
     def features(self, c):
+        if c.get('stream') == 'min':
+            return self.min_ops(c) + ['stream-min'] + (['min-ltl'] if '[' not in c['text'] else [])
         return sorted(fml.ops(c['f'])) + sorted({v['style'] for v in c['variants']} | {v['fe'] for v in c['variants']})
 
     def key(self, c):
+        if c.get('stream') == 'min':
+            return json.dumps([c['text'], c['drops']])
         return json.dumps([v['text'] for v in c['variants']])
 
     def describe(self, c):
+        if c.get('stream') == 'min':
+            return {'stream': 'min', 'text': c['text'], 'one_needed_pair_removed': c['drops'][:4]}
         return {'spellings': [v['text'] for v in c['variants']][:9], 'data': c['cols']}
 
     def signature(self, c, detail):
+        if c.get('stream') == 'min':
+            return {'ops': self.min_ops(c), 'style': 'min-stream', 'fe': detail.get('front_end') if isinstance(detail, dict) else None}
         return {'ops': sorted(fml.ops(c['f'])), 'style': detail.get('style') if isinstance(detail, dict) else None, 'fe': detail.get('front_end') if isinstance(detail, dict) else None}
 
 
